@@ -14,9 +14,15 @@ def run(ctx):
     n = 10 if not ctx.thorough else 60
     js = jobs.make_jobs(ctx.rng, optimizers.names(), ["cont", "cont-sym", "cont-zero", "cont-scalars", "multiobj", "multiobj", "disc", "binary", "mixed", "perm", "perm"], n,
                         modes=("serial", "serial", "thread") if not ctx.thorough else ("serial", "thread", "process"), max_cycles_choices=(1, 2, 3), multi=True)
-    ctx.rule("all exported optimizers × tasks (continuous, multi-objective with random non-negative weights, discrete/binary/mixed/permutation for the pairs that run today) × 4 single + 2 multi objectives × min/max × seeds × modes; "
+    ctx.rule("all exported optimizers × tasks (continuous, multi-objective with random non-negative weights, discrete/binary/mixed/permutation for the pairs that run today) × 4 single + 2 multi objectives × min/max × seeds × modes; a sixth of the runs on an instance that has just solved another task (same space and seed, other objective/direction); "
              "for every reported agent the harness re-evaluates objective(position) (and np.dot with the weights) and the documented fitness formula and compares bit-for-bit; a case = one run; "
              "non-trivial = result with ≥ 2 generations")
+    # a sixth of the runs use an optimizer instance that has just solved another task on the same space with the same seed
+    # (other objective and direction): costs must still be those of THIS task's objective
+    for j in ctx.rng.sample(js, len(js) // 6):
+        j["warmup"] = {"objective": ctx.rng.choice([o for o in ("sphere", "linear", "rastrigin", "neg") if o != j["objective"]]) if j.get("weights") is None else j["objective"],
+                       "minmax": "max" if j["minmax"] == "min" else "min"}
+        j["kind"] = j["kind"] + "+reused-instance"
     results = pmap(trace.run_traced, js)
     C01.judge(ctx, results, ["C02"])
 
